@@ -145,6 +145,12 @@ class NullAnalysis:
     elif isinstance(e, ast.Subscript) and not isinstance(e.slice, ast.Slice):
       # list[None] raises TypeError; dict.get style lookups use calls
       pass
+    elif isinstance(e, ast.Subscript):
+      # x[:None] does not raise: it silently means "no bound", so an absent
+      # position selects everything instead of nothing
+      for b in (e.slice.lower, e.slice.upper, e.slice.step):
+        if b is not None:
+          self._sink(b, st, node_id, 'slice bound', e)
     for c in ast.iter_child_nodes(e):
       if isinstance(c, ast.expr):
         self.scan_expr(c, st, node_id)
